@@ -106,7 +106,11 @@ inductive Justification
       (`except OSError as err: raise convert_oserror(err, self.pid, self._name)`) -/
   | handTranslated
   /-- Windows `ppid()`: no per-process OS call at all, only the system-wide `ppid_map()`;
-      an absent key is turned into NoSuchProcess by hand -/
+      an absent key is turned into NoSuchProcess by hand.
+      DEAD since /repo 61843a1: `ppid()` now carries `wrap_exceptions` (obligation
+      `cfg_win_ppid_wrapped`), so `methodOK` is satisfied by `m.wrapped` and never consults this
+      justification; the constructor and its branch in `justification` are kept only as a record of
+      the superseded shape. -/
   | systemWideOnly
   /-- AIX `open_files()`: runs `/usr/bin/procfiles` and reads "no such process" from its stderr -/
   | externalTool
